@@ -15,7 +15,9 @@ fn char_index(src: &str, byte: usize) -> i64 {
 fn lex_event(out: &mut Out, src: &str, stack: bool) {
     let mut holder = StaticSource::new(src.to_string());
     let text: &'static str = holder.src();
+    case_begin(text);
     let (toks, ended) = guarded(|| lace::verif::lex(text));
+    case_end();
     let toks = toks.unwrap_or_default();
     let list: Vec<serde_json::Value> = toks
         .iter()
